@@ -383,11 +383,18 @@ def histories(draw, table, *, max_ticks=5, max_readings=4):
             readings = []
             base = held
             for _ in range(draw(st.integers(1, max_readings))):
-                # timestamps relative to the held time, in any order
-                ts = base + draw(signed_q()) * max_dt
+                # timestamps relative to the held time, in any order; ties: one reading in five repeats the timestamp of
+                # ANY earlier reading of the tick (equal stamps that are not neighbours must still be folded as given)
+                if readings and draw(st.sampled_from([False, False, False, False, True])):
+                    ts = draw(st.sampled_from([r[0] for r in readings]))
+                else:
+                    ts = base + draw(signed_q()) * max_dt
                 readings.append([ts, draw(st.integers(0, 2))])
             held = readings[-1][0]
-        out = held + draw(signed_q()) * max_dt
+        if ticks and draw(st.sampled_from([False, False, False, False, False, True])):
+            out = ticks[-1]["out"]  # polling the same output time again (nothing may be remembered from the previous tick)
+        else:
+            out = held + draw(signed_q()) * max_dt
         ticks.append({"out": out, "readings": readings})
     return {"I": I, "max_dt": max_dt, "cal": draw(st.booleans()), "ctl": draw(st.booleans()), "t0": t0, "ticks": ticks}
 
